@@ -4,21 +4,17 @@ From AV Require Import Lib.Vec Gen.Kernels Proofs.C02.
 Import ListNotations.
 Open Scope R_scope.
 
-Lemma unnorm_is_scaled_log_w : forall ll lp lq (b0 b : R),
-  length lp = length ll -> length lq = length ll ->
-  vmap2 Rplus (map (fun t_ => Rmult (Rminus b0 b) t_) lq)
-              (map (fun t_ => Rmult (Rminus b b0) t_) (vmap2 Rplus ll lp))
-  = map (fun t => (b - b0) * t) (vmap2 Rminus (vmap2 Rplus ll lp) lq).
-Proof.
-  induction ll as [|a ll IH]; intros [|p lp] [|q lq] b0 b Hp Hq; simpl in *; try discriminate; auto.
-  f_equal; [ring|]. apply IH; lia.
-Qed.
-
+(* Proved by simultaneous induction on the three lists with the generated body unfolded: the proof does not depend on how
+   the source spells the element-wise expression (e.g. (b0-b)*lq + (b-b0)*(ll+lp) or -d*lq + d*(ll+lp) with d = b-b0). *)
 Lemma unnormalized_log_weights_spec {X} (x : list X) ll lp lq b0 b :
   length lp = length ll -> length lq = length ll ->
   unnormalized_log_weights x ll lp lq b0 b
   = map (fun t => (b - b0) * t) (compute_weights_log_w x ll lp lq).
-Proof. intros. unfold unnormalized_log_weights, compute_weights_log_w. cbv zeta. now apply unnorm_is_scaled_log_w. Qed.
+Proof.
+  intros Hp Hq. unfold unnormalized_log_weights, compute_weights_log_w. cbv zeta.
+  revert lp lq Hp Hq. induction ll as [|a ll IH]; intros [|p lp] [|q lq] Hp Hq; simpl in *; try discriminate; auto.
+  f_equal; [ring|]. apply IH; lia.
+Qed.
 
 Lemma log_weights_fn {X} (x : list X) ll lp lq b0 b :
   log_weights x ll lp lq b0 b
